@@ -9,6 +9,8 @@ import json, os, shutil, subprocess, sys, tempfile
 
 VERIF = os.path.dirname(os.path.dirname(os.path.abspath(__file__)))
 SEEDED = os.path.join(VERIF, "seeded")
+if "--dir" in sys.argv:
+    SEEDED = os.path.join(VERIF, sys.argv[sys.argv.index("--dir") + 1])
 
 def props():
     return [c["property_id"] for c in json.load(open(os.path.join(VERIF, "MANIFEST.json")))["checks"]]
@@ -21,7 +23,11 @@ def main():
     args = sys.argv[1:]
     scratch = "--scratch" in args
     jobs = int(args[args.index("--jobs") + 1]) if "--jobs" in args else 3
-    names = [a for a in args if not a.startswith("--") and not a.isdigit()] or sorted(d for d in os.listdir(SEEDED) if os.path.exists(os.path.join(SEEDED, d, "patch.diff")))
+    skip = set()
+    for fl in ("--jobs", "--dir"):
+        if fl in args:
+            skip.add(args[args.index(fl) + 1])
+    names = [a for a in args if not a.startswith("--") and a not in skip] or sorted(d for d in os.listdir(SEEDED) if os.path.exists(os.path.join(SEEDED, d, "patch.diff")))
     for name in names:
         patch = os.path.join(SEEDED, name, "patch.diff")
         res = {}
